@@ -34,6 +34,7 @@ CHECKS = {
     "C04": dict(
         subjects=[("smr.RCU_gpi", 8000, 300000), ("smr.RCU_gpb", 8000, 300000), ("smr.RCU_gpt", 20000, 300000), ("smr.RCU_shb", 6000, 200000)],
         classes=["reclaimed-under-reader", "synchronize-returned-early", "deref-after-dispose"],
+        unit=40,   # general_threaded deadlocks (two concurrent synchronize() callers, a liveness defect outside the listed properties) end a worker about once in 50 gpt runs; small units keep the completed runs countable
         expect_probes=["disposed_during_run", "critical_sections", "synchronize_ops", "batch_retire_ops", "reattach"],
         assumptions=["RCU API calls that may synchronise are never made under a reader lock (documented protocol)"],
         title="RCU never reclaims under a pre-existing reader",
@@ -42,6 +43,7 @@ CHECKS = {
     "C05": dict(
         subjects=[("smr.RCU_gpi", 5000, 200000), ("smr.RCU_gpb", 8000, 300000), ("smr.RCU_gpt", 20000, 300000), ("smr.RCU_shb", 6000, 200000)],
         classes=["double-dispose", "never-disposed", "dispose-not-retired", "dispose-unknown", "reclaimed-under-reader", "synchronize-returned-early"],   # "exactly once, after a grace period"
+        unit=40,   # general_threaded deadlocks (two concurrent synchronize() callers, a liveness defect outside the listed properties) end a worker about once in 50 gpt runs; small units keep the completed runs countable
         fatal_classes_as_violation=["hang", "hang-solo"],
         expect_probes=["disposed_during_run", "disposed_at_singleton_destruction", "batch_retire_ops"],
         assumptions=["RCU API calls that may synchronise are never made under a reader lock (documented protocol)"],
